@@ -33,6 +33,8 @@ impl SwiftField for Field34F {
     where
         Self: Sized,
     {
+        super::swift_utils::require_ascii(input, "Field 34F")?;
+
         // Field34F format: 3!a[1!a]15d (currency + optional indicator + amount)
         if input.len() < 4 {
             // Minimum: 3 chars currency + 1 digit amount
